@@ -15,7 +15,7 @@ OUTSIDE = ('arities above 4; recursion deeper than 2 levels or non-binary recurs
 _POOL = {
     'engine': 'cbmc', 'shims': ['moodycamel', '../harness/C04/shim'], 'src': 'invoke.cpp',
     'repo_sources': ['dispenso/detail/per_thread_info.cpp', 'dispenso/task_set.cpp'],
-    'timeout': 900, 'must_reach': 'all',
+    'timeout': 900, 'must_reach': 'all', 'object_bits': 13,
 }
 _CN = {1: 'TaskCost::kHeavy (schedulePlaced route)', 0: 'TaskCost::kLightweight'}
 
